@@ -51,7 +51,7 @@ VALUES = [
     ("expr-add", "1 + 2", 3),
 ]
 
-POSITIONS = ["bare", "alias", "where", "subquery", "arith", "insert", "twice"]
+POSITIONS = ["bare", "alias", "where", "subquery", "arith", "insert", "twice", "minus", "negate", "concat"]
 
 LITERALS = [
     ("squote-ref", "SELECT '$v1'", "$v1"),
@@ -117,6 +117,12 @@ def _use_sql(name: str, pos: str) -> tuple[str, Any]:
         return f"SELECT x FROM (SELECT {ref} AS x) WHERE x = {ref}", lambda v: [(v,)]
     if pos == "arith":
         return f"SELECT {ref} * 2", lambda v: [(v * 2,)] if isinstance(v, (int, decimal.Decimal)) else None
+    if pos == "minus":
+        return f"SELECT 10-{ref}", lambda v: [(10 - v,)] if isinstance(v, (int, decimal.Decimal)) else None
+    if pos == "negate":
+        return f"SELECT -{ref}", lambda v: [(-v,)] if isinstance(v, (int, decimal.Decimal)) else None
+    if pos == "concat":
+        return f"SELECT 'a'||{ref}||'b'", lambda v: [("a" + v + "b",)] if isinstance(v, str) else None
     if pos == "twice":
         return f"SELECT {ref}, {ref}", lambda v: [(v, v)]
     if pos == "insert":
